@@ -133,7 +133,7 @@ theorem C19_request_names_subject (cfg : Cfg) (st : St) (s : Subj) (expire : Opt
     rw [this] at hr
     cases hr
   | false =>
-    obtain ⟨ls, out, hdo, hpost, hem⟩ := doLogout_live (cfg := cfg)
+    obtain ⟨ls, out, hdo, hpost, hem, _⟩ := doLogout_live (cfg := cfg)
       (st := { st with heap := Dict.set st.stepNo (Dict.keys m) st.heap }) (s := s) (cell := st.stepNo)
       (expire := expire) hdl
     rw [hdo] at hr
@@ -163,7 +163,7 @@ theorem C19_request_names_subject_reentry (cfg : Cfg) (st : St) (rid : ReqId) (r
         rw [this] at hr
         cases hr
       | false =>
-        obtain ⟨ls, out, hdo, hpost, hem⟩ := doLogout_live (cfg := cfg) (st := reentry st rid rec x)
+        obtain ⟨ls, out, hdo, hpost, hem, _⟩ := doLogout_live (cfg := cfg) (st := reentry st rid rec x)
           (s := rec.subj) (cell := rec.cell) (expire := rec.expire) hdl
         rw [hdo] at hr
         simp only [reentry, heapGet_set_self] at hpost
